@@ -37,7 +37,14 @@ def inv_ba(S_, a):
     ml = h.f(a, "max_length")
     keys = od_keys(h, d)
     j, k = z3.Int("j!ba"), z3.Int("k!ba")
+    from pyvc.contract import ATTRVAL
+    S_.dict_values(d, ATTRVAL)       # declared typing of the store's values, justified by attrs_domain below
+    rr = z3.Int("r!baown")
+    own = z3.ForAll([rr], Implies(And(h.typeof(VRef(rr)) == S_.cid("BoundedAttributes"), rr != Val.r(a)), And(
+        # ownership: every store has its own ordered dict (created by its constructor, never rebound) with its own key list
+        h.f(VRef(rr), "_dict") != d, od_keys(h, h.f(VRef(rr), "_dict")) != keys)))
     return And(
+        own,
         attrs_domain(S_, h, a),
         S_.pre(d, "OrderedDict"), S_.pre(keys, "list"), h.llen(keys) == h.dlen(d), h.llen(keys) >= 0,
         Or(Val.is_VNone(ml), And(Val.is_VInt(ml), iv(ml) >= 0)),
@@ -239,6 +246,9 @@ c = contract(AT, "BoundedAttributes.__init__", ["C18"])
 c.param("self", OBJ("BoundedAttributes", inv=False)).param("max_length", OPT(INT)).param("attributes", OPT(DICT()))
 c.param("immutable", BOOL).param("max_value_len", OPT(INT))
 c.req("initial-attributes-are-primitive", lambda S_: Or(Val.is_VNone(S_.a.attributes), _prim_dict(S_, S_.a.attributes)))
+# the object being constructed is new: it has no _immutable attribute yet, so getattr(self, "_immutable", False) is False
+# until the constructor sets it (the model has no "absent": an absent attribute read with that default is False)
+c.req("new-object-is-not-frozen-yet", lambda S_: S_.old.f(S_.a.self, "_immutable") == VFalse, new_object_fact=True)
 c.protects = lambda S_: {"fields": ["max_length", "max_value_len", "_lock", "_dict", "_immutable", "$okeys"], "lists": [], "dicts": []}
 c.result = NONE
 c.host_ops_exc_base = "Exception"
